@@ -21,12 +21,26 @@ def words(rng, lo=1, hi=5):
     return ' '.join(rng.choice(WORDS) for _ in range(rng.randint(lo, hi)))
 
 
+LONG_LINES = 0.06      # probability that an ordinary text line is a long one (60 to 100 characters, sometimes 300)
+
+
+def long_words(rng):
+    """words up to a width around every usual folding column (72, 76, 78, 79, 80), or far beyond"""
+    want = rng.randint(58, 100) if rng.random() < .85 else rng.randint(150, 320)
+    out = rng.choice(WORDS)
+    while len(out) < want:
+        out += ' ' + rng.choice(WORDS)
+    return out[:want].rstrip() if rng.random() < .5 else out
+
+
 def text_lines(rng, maxn=5, first_normal=True):
     """list of ('N', s) | ('B',) | ('V', s); does not end with a blank marker"""
     out = []
     for i in range(rng.randint(0, maxn)):
         k = rng.random()
-        if i == 0 and first_normal:
+        if rng.random() < LONG_LINES and (i > 0 or first_normal):
+            out.append(('N', long_words(rng)))
+        elif i == 0 and first_normal:
             out.append(('N', words(rng)))
         elif k > .97:
             # a verbatim line that is nothing but a full stop (not the blank-line marker: it is indented further)
@@ -88,8 +102,18 @@ TAB_EXTRAS = 0.0       # probability that a continuation line of an extra field 
 TAB_INDENT = '\t'
 
 
-def extras(rng):
+# names the format declares for another type of paragraph: in this one they are extra fields like any other
+FOREIGN = {'files': ['Upstream-Name', 'Upstream-Contact', 'Source', 'Disclaimer', 'Files-Excluded'],
+           'license': ['Copyright', 'Upstream-Name', 'Upstream-Contact', 'Source', 'Disclaimer', 'Files-Excluded'],
+           'header': ['Files']}
+
+
+def extras(rng, kind=None):
     out = []
+    if kind and rng.random() < .1:
+        n = rng.choice(FOREIGN[kind])
+        conts = [' ' + words(rng) for _ in range(rng.randint(0, 2))]
+        out.append((n, words(rng, 1, 4), conts))
     for n in rng.sample(EXTRA_NAMES, rng.randint(0, 2) if rng.random() < .3 else 0):
         conts = [(TAB_INDENT if rng.random() < TAB_EXTRAS else ' ') + words(rng) for _ in range(rng.randint(0, 2) if rng.random() < .4 else 0)]
         out.append((n, words(rng), conts))
@@ -111,13 +135,13 @@ def files_para(rng):
             'copyright': [statement(rng) for _ in range(rng.randint(1, 4))],
             'license': license_field(rng, rng.random() < .6),
             'comment': text_lines(rng, 3, first_normal=True) if rng.random() < .3 else None,
-            'extras': extras(rng)}
+            'extras': extras(rng, 'files')}
 
 
 def license_para(rng):
     lic = license_field(rng)
     return {'kind': 'license', 'license': lic,
-            'comment': text_lines(rng, 3) if rng.random() < .2 else None, 'extras': extras(rng)}
+            'comment': text_lines(rng, 3) if rng.random() < .2 else None, 'extras': extras(rng, 'license')}
 
 
 def header_para(rng):
@@ -125,11 +149,11 @@ def header_para(rng):
          'upstream_name': words(rng, 1, 2) if rng.random() < .6 else None,
          'upstream_contact': [rng.choice(HOLDERS) for _ in range(rng.randint(1, 3))] if rng.random() < .5 else None,
          'source': text_lines(rng, 2) or None if rng.random() < .5 else None,
-         'disclaimer': None, 'copyright': [statement(rng)] if rng.random() < .2 else None,
+         'disclaimer': (text_lines(rng, 3) or None) if rng.random() < .15 else None, 'copyright': [statement(rng)] if rng.random() < .2 else None,
          'license': license_field(rng, False) if rng.random() < .2 else None,
          'comment': text_lines(rng, 3) if rng.random() < .3 else None,
          'files_excluded': [rng.choice(TOKENS) for _ in range(rng.randint(1, 3))] if rng.random() < .2 else None,
-         'extras': extras(rng)}
+         'extras': extras(rng, 'header')}
     for k in ('source', 'comment'):
         if p[k] == []:
             p[k] = None
@@ -174,6 +198,8 @@ def render_para(rng, p, lic_spelling=None):
             fs.append(('Upstream-Contact', [p['upstream_contact'][0]] + [' ' + x for x in p['upstream_contact'][1:]]))
         if p['source']:
             text_field('Source', p['source'])
+        if p['disclaimer']:
+            text_field('Disclaimer', p['disclaimer'])
         if p['files_excluded'] is not None:
             fs.append(('Files-Excluded', [p['files_excluded'][0]] + [' ' + x for x in p['files_excluded'][1:]]))
     if p['kind'] == 'files':
@@ -242,7 +268,7 @@ def expected(p):
         return ('CopyrightHeaderParagraph', {
             'format': p['format'], 'upstream_name': p['upstream_name'] or '',
             'upstream_contact': list(p['upstream_contact'] or []),
-            'source': text_expected(p['source']), 'disclaimer': '',
+            'source': text_expected(p['source']), 'disclaimer': text_expected(p['disclaimer']),
             'copyright': [st_expected(s) for s in (p['copyright'] or [])],
             'license': lic_expected(p['license']), 'comment': text_expected(p['comment']),
             'files_excluded': list(p['files_excluded'] or [])}, ex)
